@@ -104,11 +104,31 @@ impl TvfsBuilder {
         self.files.sort_by(|a, b| a.path.cmp(&b.path));
 
         // Create a temporary header to compute field sizes.
-        // We need to know cft_table_size for CftOffsSize, but cft_table_size
-        // depends on CftOffsSize (circular). Break the cycle by computing
-        // the entry count first — entry_size only depends on flags and the
-        // *range* of cft_table_size (1/2/3/4 byte threshold).
         let mut header = TvfsHeader::new(self.flags);
+
+        // EST first: its size decides EstOffsSize, which is part of every CFT entry.
+        let est_table = if (self.flags & TVFS_FLAG_ENCODING_SPEC) != 0 && !self.est_specs.is_empty()
+        {
+            let mut est = EstTable::new();
+            for spec in &self.est_specs {
+                est.add_spec(spec.clone());
+            }
+            Some(est)
+        } else {
+            None
+        };
+
+        let est_data = est_table.as_ref().map(|est| {
+            let mut buf = Vec::new();
+            for spec in &est.specs {
+                buf.extend_from_slice(spec.as_bytes());
+                buf.push(0);
+            }
+            buf
+        });
+        if let Some(ref est) = est_data {
+            header.est_table_size = Some(est.len() as u32);
+        }
 
         // Build CFT entries and data
         let cft_entries: Vec<ContainerEntry> = self
@@ -124,15 +144,20 @@ impl TvfsBuilder {
             })
             .collect();
 
-        // First pass: estimate CFT size with minimum offs sizes
-        let est_entry_size_estimate = header.cft_entry_size();
-        let cft_size_estimate = (cft_entries.len() * est_entry_size_estimate) as u32;
-        header.cft_table_size = cft_size_estimate;
-
-        // Now recompute with correct offs sizes
-        let entry_size = header.cft_entry_size();
-        let cft_size = (cft_entries.len() * entry_size) as u32;
-        header.cft_table_size = cft_size;
+        // We need cft_table_size for CftOffsSize, but with PATCH_SUPPORT the entry
+        // size (and so cft_table_size) depends on CftOffsSize (circular). Start from
+        // the minimum width and widen until the entry size agrees with the table
+        // size it produces. The width only grows and has four possible values, so
+        // four rounds always reach the fixed point.
+        let mut entry_size = header.cft_entry_size();
+        for _ in 0..4 {
+            header.cft_table_size = (cft_entries.len() * entry_size) as u32;
+            let widened = header.cft_entry_size();
+            if widened == entry_size {
+                break;
+            }
+            entry_size = widened;
+        }
 
         // Assign offsets to CFT entries
         let cft_entries: Vec<ContainerEntry> = cft_entries
@@ -177,27 +202,6 @@ impl TvfsBuilder {
             entries: cft_entries,
         };
         let cft_data = container_table.build(&header);
-
-        // EST
-        let est_table = if (self.flags & TVFS_FLAG_ENCODING_SPEC) != 0 && !self.est_specs.is_empty()
-        {
-            let mut est = EstTable::new();
-            for spec in &self.est_specs {
-                est.add_spec(spec.clone());
-            }
-            Some(est)
-        } else {
-            None
-        };
-
-        let est_data = est_table.as_ref().map(|est| {
-            let mut buf = Vec::new();
-            for spec in &est.specs {
-                buf.extend_from_slice(spec.as_bytes());
-                buf.push(0);
-            }
-            buf
-        });
 
         // Compute table layout: header → path → est(opt) → cft → vfs
         let header_size = header.header_size as u32;
